@@ -1,4 +1,5 @@
 import CTV.Lemmas.RacesApple
+import CTV.Model.TemporalSpec
 /-! Helper lemmas for C17 about the policy groups and the compatibility filter, and the running example `run2`. -/
 set_option linter.unusedSimpArgs false
 set_option linter.unusedVariables false
@@ -36,6 +37,20 @@ theorem policyCfg_some {p : Pol} {m : Int} {ls : List LogInfo} {c : Cfg} (h : po
   · cases h
 
 
+/-- the regenerated verdict of `TemporallyCompatible`'s loop body, whatever its shape: no interval, or start ≤ t < end -/
+theorem temporallyCompatible_iff (iv : Option (Int × Int)) (t : Int) :
+    Gen.temporallyCompatible iv t = true ↔ match iv with
+      | none => True
+      | some (a, b) => a ≤ t ∧ t < b := by
+  unfold Gen.temporallyCompatible
+  rw [Gen.temporallyCompatibleKeeps_eq_spec]
+  cases iv with
+  | none => simp
+  | some ab =>
+    obtain ⟨a, b⟩ := ab
+    simp only [Spec.temporallyCompatibleCond, Bool.false_or, Bool.and_eq_true, Bool.or_eq_true, decide_eq_true_eq]
+    omega
+
 /-- the certificate's NotAfter lies in the log's temporal interval (a log without interval accepts every date) -/
 def inWindow (notAfter : Int) (li : LogInfo) : Prop :=
   match li.interval with
@@ -58,17 +73,7 @@ theorem mem_compatible {na : Int} {root : Option (Nat × Bool)} {ls : List LogIn
     refine ⟨h.1, h.2.1, ?_⟩
     have ht := h.2.2
     unfold temporalOk at ht
-    unfold inWindow
-    cases hi : li.interval with
-    | none => trivial
-    | some ab =>
-      obtain ⟨a, b⟩ := ab
-      simp only [hi] at ht
-      have tw : Gen.Policy.temporallyCompatible na a b = true ↔ (a ≤ na ∧ na < b) := by
-        unfold Gen.Policy.temporallyCompatible
-        simp only [Bool.and_eq_true, Bool.or_eq_true, decide_eq_true_eq]
-        omega
-      exact tw.mp ht
+    exact (temporallyCompatible_iff li.interval na).mp ht
   cases root with
   | none =>
     obtain ⟨h1, h2, h3⟩ := key li h
